@@ -68,6 +68,9 @@ pub(crate) fn find_vertices(
                 initial_simplex.push(new_point);
             }
 
+            #[cfg(alpha_g_verif)]
+            VERIF_LAST_SIMPLEX.with(|s| *s.borrow_mut() = initial_simplex.clone());
+
             let problem = Problem {
                 tracks: tracks.clone(),
                 tolerance: closest_t_tolerance,
@@ -235,4 +238,31 @@ impl CostFunction for Problem {
             .sum::<Area>()
             .get::<square_meter>())
     }
+}
+
+// Verification hooks (read-only wrappers and one recorder; compiled only with
+// `--cfg alpha_g_verif`).
+#[cfg(alpha_g_verif)]
+thread_local! {
+    static VERIF_LAST_SIMPLEX: std::cell::RefCell<Vec<Vec<f64>>> = const { std::cell::RefCell::new(Vec::new()) };
+}
+// The initial simplex of the most recent vertex fit on this thread (rows are [x, y, z] in meters;
+// row 0 is the guess (0, 0, mean z of the chosen beamline cluster)).
+#[cfg(alpha_g_verif)]
+pub fn verif_take_initial_simplex() -> Vec<Vec<f64>> {
+    VERIF_LAST_SIMPLEX.with(|s| std::mem::take(&mut *s.borrow_mut()))
+}
+#[cfg(alpha_g_verif)]
+pub fn verif_beamline_clusters(tracks: Vec<Track>, max_beamline_clustering_distance: Length) -> Vec<(Vec<Track>, Length)> {
+    beamline_clusters(tracks, max_beamline_clustering_distance)
+}
+#[cfg(alpha_g_verif)]
+pub fn verif_vertex_cost(tracks: Vec<Track>, tolerance: f64, max_num_iter: usize, p: &[f64]) -> f64 {
+    Problem {
+        tracks,
+        tolerance,
+        max_num_iter,
+    }
+    .cost(&p.to_vec())
+    .unwrap()
 }
